@@ -333,11 +333,11 @@ fn parts(ctx: &Ctx) -> Vec<PartSpec> {
     let mut v = Vec::new();
     if ctx.quick() {
         for s in ["S1", "S2", "S2b", "S3", "S3b", "S3c", "S4", "S4h", "S5", "S5h"] {
-            v.push(PartSpec::new(&format!("{}-pb2", s), json!({"scn": s, "pb": 2})).budget(40.0));
+            v.push(PartSpec::new(&format!("{}-pb2", s), json!({"scn": s, "pb": 2})).budget(120.0));
         }
         // E2: C11 memory model (incl. the epoch reclamation's own atomics), 2 threads at bound 1, 3 threads at bound 0
         for (s, pb) in [("push_clear", 1), ("push_snap", 1), ("handover_clear", 1), ("full_push_clear", 1), ("handover_push_push", 1), ("push_clear_snap", 0), ("push_clear_clear", 0), ("push_push_clear", 0), ("handover_push_push_clear", 0)] {
-            v.push(PartSpec::new(&format!("loom-{}-pb{}", s, pb), json!({"loom": s, "pb": pb})).budget(55.0));
+            v.push(PartSpec::new(&format!("loom-{}-pb{}", s, pb), json!({"loom": s, "pb": pb})).budget(160.0));
         }
     } else {
         for (s, pb, b) in [("push_clear", 2, 900.0), ("push_snap", 2, 1500.0), ("handover_clear", 2, 1500.0), ("full_push_clear", 2, 1500.0), ("handover_push_push", 2, 1500.0), ("handover_snap", 1, 900.0), ("push_clear_snap", 1, 1500.0), ("push_clear_clear", 1, 1500.0), ("push_push_clear", 1, 1500.0), ("handover_push_push_clear", 1, 1500.0)] {
